@@ -209,6 +209,31 @@ pub fn check_mesh(
             "triangles": tris.len(), "defects": rep.defects.len()})));
     }
     if tris.is_empty() {
+        // an empty mesh is fine when the solid is thinner than the cells; it
+        // is not when some point lies deeper inside the solid than 1.5 cells
+        // (the CSG fields are 1-Lipschitz, so a ball of that radius is
+        // inside and contains a cell corner)
+        if volume_check {
+            let s_max = (0..3)
+                .map(|j| (0..3).map(|i| (su.mat[(i, j)] as f64).powi(2)).sum::<f64>().sqrt())
+                .fold(0f64, f64::max);
+            let h = 2.0 / (1u32 << su.depth) as f64 * s_max;
+            let n = 20_000usize;
+            let pts: Vec<[f32; 3]> = (0..n)
+                .map(|_| {
+                    let w = [rng.uniform(-0.95, 0.95) as f32, rng.uniform(-0.95, 0.95) as f32, rng.uniform(-0.95, 0.95) as f32];
+                    let q = su.mat.transform_point(&Point3::new(w[0], w[1], w[2]));
+                    [q.x, q.y, q.z]
+                })
+                .collect();
+            let vals = eval_points(ctx, root, &pts);
+            st.inc("empty_meshes_judged");
+            if let Some(k) = vals.iter().position(|v| (*v as f64) < -1.5 * h) {
+                return Some(("empty_mesh".into(),
+                    format!("the mesh is empty although the shape is {:.3} deep at {:?} (cell size {:.4})", -vals[k], pts[k], h),
+                    json!({"depth": su.depth, "backend": if su.jit { "jit" } else { "vm" }, "world_to_model": format!("{:?}", su.mat), "threads": su.pool.map(|i| POOL_SIZES[i % POOL_SIZES.len()])})));
+            }
+        }
         return None;
     }
     st.inc("meshes_closed_manifold");
@@ -464,21 +489,33 @@ fn scale_translate_mat(rng: &mut Rng) -> Matrix4<f32> {
     m
 }
 
-fn check_prog(p: &Prog, seed: u64, tier: Tier, st: &mut Stats) -> Option<(String, String, Value)> {
-    check_prog_(p, seed, tier, st, 0)
+fn check_prog(p: &Prog, seed: u64, tier: Tier, st: &mut Stats, off: [f32; 3]) -> Option<(String, String, Value)> {
+    check_prog__(p, seed, tier, st, 0, off)
+}
+
+fn check_prog_(p: &Prog, seed: u64, tier: Tier, st: &mut Stats, view: u8) -> Option<(String, String, Value)> {
+    check_prog__(p, seed, tier, st, view, [0.0; 3])
 }
 
 /// `view`: 0 = random rigid + scale, 1 = scale/translate/mirror, 2 = dyadic
-fn check_prog_(p: &Prog, seed: u64, tier: Tier, st: &mut Stats, view: u8) -> Option<(String, String, Value)> {
+/// `off`: the scene lives around this model-space position (see
+/// `shape::shift`); the view looks at it
+fn check_prog__(p: &Prog, seed: u64, tier: Tier, st: &mut Stats, view: u8, off: [f32; 3]) -> Option<(String, String, Value)> {
     let mut rng = Rng::new(seed);
     let rng = &mut rng;
     let max_depth = tier.pick(5, 6);
     let su = MeshSetup {
         depth: if rng.chance(0.45) { max_depth as u8 } else { 1 + rng.below(max_depth) as u8 },
-        mat: match view {
-            1 => scale_translate_mat(rng),
-            2 => dyadic_mat(rng),
-            _ => random_mesh_mat(rng),
+        mat: {
+            let mut m = match view {
+                1 => scale_translate_mat(rng),
+                2 => dyadic_mat(rng),
+                _ => random_mesh_mat(rng),
+            };
+            for i in 0..3 {
+                m[(i, 3)] += off[i];
+            }
+            m
         },
         jit: rng.chance(0.5),
         pool: if rng.chance(0.5) { None } else { Some(rng.below(POOL_SIZES.len())) },
@@ -570,19 +607,35 @@ impl Prop for C08 {
         let mut cfg = ShapeCfg::mesh();
         cfg.min_feature = 0.25;
         cfg.max_depth = 1 + rng.below(3);
-        let p = shape::generate(rng, &cfg);
+        let mut p = shape::generate(rng, &cfg);
+        // one scene in eight lives a few units away from the model origin
+        // (a part of a larger model), and the view looks at it there
+        let mut off = [0f32; 3];
+        if rng.chance(0.125) {
+            let dir = loop {
+                let v = [rng.uniform(-1.0, 1.0), rng.uniform(-1.0, 1.0), rng.uniform(-1.0, 1.0)];
+                let n = (v[0] * v[0] + v[1] * v[1] + v[2] * v[2]).sqrt();
+                if n > 0.2 && n <= 1.0 {
+                    break [v[0] / n, v[1] / n, v[2] / n];
+                }
+            };
+            let r = rng.uniform(1.5, 6.0);
+            off = [(dir[0] * r) as f32, (dir[1] * r) as f32, (dir[2] * r) as f32];
+            p = shape::shift(&p, off);
+            st.inc("scenes_away_from_the_model_origin");
+        }
         st.distinct(p.hash());
         st.sample(|| json!({"shape": p.to_json()}));
         let seed = rng.next_u64();
-        if let Some((sig, msg, detail)) = check_prog(&p, seed, tier, st) {
+        if let Some((sig, msg, detail)) = check_prog(&p, seed, tier, st, off) {
             let mut scratch = Stats::default();
             let sig0 = sig.clone();
             let small = crate::gen_::shrink::shrink(
                 &p,
-                &mut |q: &Prog| matches!(guarded(|| check_prog(q, seed, tier, &mut scratch)), Ok(Some((s, _, _))) if s == sig0),
+                &mut |q: &Prog| matches!(guarded(|| check_prog(q, seed, tier, &mut scratch, off)), Ok(Some((s, _, _))) if s == sig0),
                 40,
             );
-            if let Some((s2, m2, d2)) = check_prog(&small, seed, tier, &mut scratch) {
+            if let Some((s2, m2, d2)) = check_prog(&small, seed, tier, &mut scratch, off) {
                 if s2 == sig {
                     st.violation(case, s2, m2, json!({"detail": d2, "shape": small.to_json(), "check_seed": seed.to_string()}));
                     return;
